@@ -4,7 +4,9 @@ CONSTANTS Tier
 CScales == {960, -960, 1920, 480, 1440}
 CShifts == {k * 960 + r : k \in IF Tier = "quick" THEN {-7, -2, 0, 3} ELSE -8..8, r \in {0, 60, -60, 240}}          \* no half-pixel residues: no ties
 CTilings == {[sy |-> <<2, 2, 2>>, sx |-> <<3, 3>>, dy |-> <<2, 3>>, dx |-> <<2, 2, 2>>], [sy |-> <<1, 2, 3>>, sx |-> <<4, 2>>, dy |-> <<3, 3>>, dx |-> <<4, 1, 1>>],
-             [sy |-> <<1, 1, 1, 1, 1, 1>>, sx |-> <<6>>, dy |-> <<5>>, dx |-> <<1, 1, 1, 1, 1, 1>>]}
+             [sy |-> <<1, 1, 1, 1, 1, 1>>, sx |-> <<6>>, dy |-> <<5>>, dx |-> <<1, 1, 1, 1, 1, 1>>],
+             \* equal chunks followed by a LARGER last one (what concatenation / balanced rechunking leaves behind): not a regular tiling
+             [sy |-> <<2, 2, 4>>, sx |-> <<1, 5>>, dy |-> <<2, 2, 3>>, dx |-> <<2, 4>>]}
 \* tchunks: chunking of the leading time axis (non-dividing chunks included); both nodata values set and different in some
 Cfgs == << [dtype |-> "uint8", float |-> FALSE, src_nodata |-> <<>>, dst_nodata |-> <<>>, time |-> 0, tchunks |-> <<>>],
            [dtype |-> "float32", float |-> TRUE, src_nodata |-> <<>>, dst_nodata |-> <<>>, time |-> 0, tchunks |-> <<>>],
